@@ -11,6 +11,7 @@ from typing import (
     TypeVar,
 )
 
+from .utils import subtler_type
 from .types import (
     Intersection,
     Order,
@@ -27,6 +28,14 @@ _current = count()
 def generate_checking_code(typ):
     if hasattr(typ, "codegen"):
         return typ.codegen()
+    elif hasattr(typ, "__origin__"):
+        # isinstance() does not accept parametrized generics such as type[X]
+        return CodeGen(
+            "{sc}({st}({arg}), {this})",
+            sc=subclasscheck,
+            st=subtler_type,
+            this=typ,
+        )
     else:
         return CodeGen("isinstance({arg}, {this})", this=typ)
 
